@@ -86,7 +86,10 @@ MCNext == IF Mode = "simplices" THEN NextS ELSE NextC
 MCSpec == MCInit /\ [][MCNext]_vars
 
 View == hist
-HistId(h) == ToString(h)
+(* state identity = the history, compactly: insert -> <<dim, boundary keys...>>, remove -> <<-1, key>>, identity -> <<-2>> *)
+OpCode(o) == IF o.op = "insert" THEN <<o.dim>> \o SortedSeq(o.bd)
+             ELSE IF o.op = "remove" THEN <<-1, o.k>> ELSE <<-2>>
+HistId(h) == [h |-> [i \in DOMAIN h |-> OpCode(h[i])]]
 ActJ(a, k) == IF a.op = "insert"
               THEN [op |-> a.op, dim |-> a.dim, bd |-> SortedSeq(a.bd), key |-> a.key, ret |-> a.ret,
                     closed_set |-> a.closed_set, fv |-> FV(k),
